@@ -634,6 +634,7 @@ type Specs struct {
 	LockInv      map[string][]Clause
 	TypeInv      map[string][]Clause
 	Frames       map[string][]*SExpr
+	Persisted    []*Persisted
 	StableNonNil map[string]bool // heap keys whose non-nil-ness, once established, is never undone
 	GlobalInv    []Clause        // invariants over shared state that hold at every instant (assumed at entry / after interference, proved at every return)
 }
@@ -647,7 +648,16 @@ var itemKeywords = map[string]bool{
 	"func": true, "assume": true, "requires": true, "ensures": true, "assigns": true, "emits": true,
 	"loop": true, "on_panic": true, "spec": true, "ghost": true, "lemma": true, "axiom": true,
 	"on_store": true, "guarded_by": true, "lock_rank": true, "immutable": true, "attr": true,
-	"may_emit": true, "global_invariant": true, "stable": true, "frame": true, "uses": true, "params": true, "results": true, "lock_invariant": true, "type_invariant": true, "end": true,
+	"may_emit": true, "global_invariant": true, "stable": true, "frame": true, "uses": true, "params": true, "results": true, "lock_invariant": true, "type_invariant": true, "end": true, "persisted": true,
+}
+
+// Persisted declares that the named fields of a struct type make the round
+// trip through encoding/json: exported, not tagged "-", pairwise distinct
+// keys, of a type the reflection-based codec restores.
+type Persisted struct {
+	Type   string
+	Fields []string
+	Tags   []string
 }
 
 type rawItem struct {
@@ -1063,6 +1073,28 @@ func (sp *Specs) parseItem(path string, it rawItem, cur **FuncContract) error {
 		for _, f := range strings.Split(rest, "<") {
 			sp.LockRank = append(sp.LockRank, strings.TrimSpace(f))
 		}
+	case "persisted":
+		// persisted[Cxx] <type>: Field, Field, ...   (a JSON shape obligation)
+		*cur = nil
+		tags := ""
+		if strings.HasPrefix(rest, "[") {
+			j := strings.Index(rest, "]")
+			tags, rest = rest[1:j], strings.TrimSpace(rest[j+1:])
+		}
+		i := strings.Index(rest, ":")
+		if i < 0 {
+			return fmt.Errorf("persisted: expected '<type>: fields'")
+		}
+		p := &Persisted{Type: strings.TrimSpace(rest[:i])}
+		for _, t := range strings.Split(tags, ",") {
+			if t = strings.TrimSpace(t); t != "" {
+				p.Tags = append(p.Tags, t)
+			}
+		}
+		for _, f := range strings.Split(rest[i+1:], ",") {
+			p.Fields = append(p.Fields, strings.TrimSpace(f))
+		}
+		sp.Persisted = append(sp.Persisted, p)
 	case "immutable":
 		*cur = nil
 		for _, f := range strings.Split(rest, ",") {
